@@ -1,5 +1,6 @@
 // main.cpp -- simcheck: worker loop, plan printing, isolated replay, minimisation, hash-set merging
 #include <signal.h>
+#include <sys/wait.h>
 #include <unistd.h>
 
 #include <algorithm>
@@ -313,6 +314,41 @@ static int cmdShrink(std::map<std::string, std::string>& a, std::vector<std::str
     {
         printf("SHRINK-FAILED original does not reproduce '%s' (got '%s')\n", sig.c_str(), o.sig.c_str());
         return 2;
+    }
+    if (p.prop == "C19" && p.cfgGet("explicit", 0) == 0)
+    {
+        // make the schedule explicit: (yield index -> next thread) items that the minimiser can drop one by one
+        std::string tmpPath = a["out"] + ".explicit";
+        fflush(stdout);
+        pid_t pid = fork();
+        if (pid == 0)
+        {
+            execForProp(p);
+            Plan q = p;
+            for (auto& it : q.items)
+                if (it.tag == "cfg" && !it.has("th"))
+                    it.set("explicit", 1);
+            for (auto& sw : lastSwitchLog())
+            {
+                Item op("op");
+                op.set("k", 20).set("at", static_cast<int64_t>(sw.first)).set("to", sw.second);
+                q.items.push_back(op);
+            }
+            std::ofstream f(tmpPath);
+            f << planToText(q);
+            f.close();
+            _exit(0);
+        }
+        int status = 0;
+        waitpid(pid, &status, 0);
+        Plan q;
+        if (loadPlan(tmpPath, q) && countOps(q) <= countOps(p) + 3000)
+        {
+            Outcome oq = runIsolated(q);
+            if (oq.sig == sig)
+                p = q;
+        }
+        unlink(tmpPath.c_str());
     }
     ShrinkStats st;
     Plan m = shrinkPlan(p, sig, a.count("budget") ? std::stoi(a["budget"]) : 400, st);
